@@ -36,6 +36,21 @@
 (*            real check.dkim in its default configuration, and dkim is     *)
 (*            what DKIM evaluation of that message yields - in particular   *)
 (*            "a message without signatures yields the single result none". *)
+(*     cq     a second, cooperating check of the same pipeline asks for the *)
+(*            message to be quarantined (as check.spf does by default for   *)
+(*            an SPF fail): "no"; "sender" at the sender stage from the     *)
+(*            pipeline-wide check block (enforce_early); "body" at the body *)
+(*            stage from the source block; "meta": the message arrives      *)
+(*            already flagged (MsgMetadata.Quarantine set by the message    *)
+(*            source, e.g. an outer pipeline).  Whatever another check asked *)
+(*            for, a published reject is still a refusal; where DMARC       *)
+(*            itself would accept, the flag belongs to that check (C06), so *)
+(*            C07 accepts both "accept" and "quarantine" there and the rule *)
+(*            says "quarantine".                                            *)
+(*     path   how the message source hands over the body: "atomic" (Body,   *)
+(*            SMTP) or "na" (BodyNonAtomic with a status per recipient,     *)
+(*            LMTP).  Neither Prop nor Rule reads it: the action must be    *)
+(*            the same on both.                                             *)
 (*   output out = [verdict, action]                                         *)
 (*     verdict  DMARC result of Verifier.Apply                              *)
 (*     action   what the pipeline did: accept, quarantine (flag),           *)
@@ -159,9 +174,11 @@ One(i) == i.shape = "one"
 P_PassOnlyIfAligned(i, o) == o.verdict = "pass" => (One(i) /\ Found(i) /\ AlignedPass(i))
 P_PassIfAligned(i, o)     == (One(i) /\ Found(i) /\ AlignedPass(i)) => o.verdict = "pass"
 P_NoPassBadFrom(i, o)     == ~One(i) => o.verdict # "pass"
-P_PassAccepted(i, o)      == (One(i) /\ Found(i) /\ AlignedPass(i)) => o.action = "accept"
+(* where DMARC itself takes no action a cooperating check's quarantine may show *)
+Lift(i, S) == IF i.cq # "no" /\ "accept" \in S THEN S \cup {"quarantine"} ELSE S
+P_PassAccepted(i, o)      == (One(i) /\ Found(i) /\ AlignedPass(i)) => o.action \in Lift(i, {"accept"})
 P_TempDNS(i, o)           == (One(i) /\ Where(i) = "temperror") => o.action = "tempreject"
-P_NoPolicyNoAction(i, o)  == (One(i) /\ Where(i) = "nopolicy") => o.action = "accept"
+P_NoPolicyNoAction(i, o)  == (One(i) /\ Where(i) = "nopolicy") => o.action \in Lift(i, {"accept"})
 (* non-pass: exactly the published action; under reject an undecided       *)
 (* alignment is refused temporarily.  An SPF temperror on an identity that  *)
 (* is not aligned can be read both ways (the SPF evaluation as a whole did  *)
@@ -174,11 +191,11 @@ Allowed(i) ==
                             ELSE IF i.spf.v = "temperror" THEN {"permreject", "tempreject"}
                             ELSE {"permreject"})
     ELSE {ActOf(pol, FALSE)}
-P_PublishedAction(i, o)   == (One(i) /\ Found(i) /\ ~AlignedPass(i)) => o.action \in Allowed(i)
+P_PublishedAction(i, o)   == (One(i) /\ Found(i) /\ ~AlignedPass(i)) => o.action \in Lift(i, Allowed(i))
 (* a record without p is not a policy (6.6.3): no action, or at most sp *)
 P_InvalidRecord(i, o)     == (One(i) /\ Where(i) \in {"dom", "org"} /\ i.p = "absent") =>
-                               o.action \in {"accept"} \cup
-                                 (IF Where(i) = "org" /\ i.sp # "absent" THEN {ActOf(i.sp, FALSE)} ELSE {})
+                               o.action \in Lift(i, {"accept"} \cup
+                                 (IF Where(i) = "org" /\ i.sp # "absent" THEN {ActOf(i.sp, FALSE)} ELSE {}))
 
 PredNames == {"PassOnlyIfAligned", "PassIfAligned", "NoPassBadFrom", "PassAccepted", "TempDNS",
               "NoPolicyNoAction", "PublishedAction", "InvalidRecord"}
@@ -195,7 +212,7 @@ Prop(i, o) == Viol(i, o) = {}
 
 -----------------------------------------------------------------------------
 (* The documented procedure, step by step. *)
-RuleD(devs, i) ==
+RuleD0(devs, i) ==
   IF ~One(i) THEN [verdict |-> "permerror", action |-> "accept"]      \* no single author domain
   ELSE LET w == WhereD(devs, i) IN
     IF w = "temperror" THEN [verdict |-> "temperror", action |-> "tempreject"]   \* fail closed
@@ -212,6 +229,9 @@ RuleD(devs, i) ==
           pol == IF w = "org" /\ i.sp # "absent" THEN i.sp ELSE i.p
       IN [verdict |-> v,
           action  |-> IF v = "pass" THEN "accept" ELSE ActOf(pol, v = "temperror")]
+(* the flag a cooperating check asked for stays on a message that is not refused *)
+RuleD(devs, i) == LET o == RuleD0(devs, i) IN
+  IF i.cq # "no" /\ o.action = "accept" THEN [o EXCEPT !.action = "quarantine"] ELSE o
 Rule(i) == RuleD({}, i)
 AsIs(i) == RuleD(Devs, i)
 
@@ -234,8 +254,10 @@ FixLorg(fs, ldom, lorg) == IF Org(Canon(fs)) = Canon(fs) THEN ldom ELSE lorg
 Row(tab, shape, fs, fs2, dk, sp, order, adkim, aspf, p, spol, pct, ldom, lorg) ==
   [tab |-> tab, shape |-> shape, from |-> fs, from2 |-> fs2, dkim |-> dk, spf |-> sp, order |-> order,
    adkim |-> adkim, aspf |-> aspf, p |-> p, sp |-> spol, pct |-> pct,
-   ldom |-> ldom, lorg |-> FixLorg(fs, ldom, lorg), slow |-> FALSE, real |-> "no"]
+   ldom |-> ldom, lorg |-> FixLorg(fs, ldom, lorg), slow |-> FALSE, real |-> "no",
+   cq |-> "no", path |-> "atomic"]
 With(r, slow, real) == [r EXCEPT !.slow = slow, !.real = real]
+Coop(r, cq, path) == [r EXCEPT !.cq = cq, !.path = path]
 
 NoSig == <<[v |-> "none", d |-> ""]>>
 Spf(v, mf, helo) == [v |-> v, mf |-> mf, helo |-> helo]
@@ -338,6 +360,22 @@ InRealDkim ==
                      IF sp % 2 = 0 THEN "dkim_first" ELSE "spf_first", m, m, p, "absent", "absent",
                      "record", "nxdomain"), FALSE, kind)
 
+(* (f) the action table again (every identifier situation x p x sp, the four *)
+(* ways a policy is or is not found) with a second component involved: a    *)
+(* cooperating check that quarantines at the sender or at the body stage,   *)
+(* and/or the per-recipient body path                                       *)
+CoopLookups == {<<"record", "nxdomain">>, <<"nxdomain", "record">>, <<"servfail", "record">>}
+CoopFroms == {"mail.victim.co.uk", "victim.co.uk"}
+InCoop ==
+  \E f \in CoopFroms, a \in 1..7, p \in Pols, spol \in Pols, lk \in CoopLookups,
+     cq \in {"no", "sender", "body", "meta"}, path \in {"atomic", "na"} :
+    LET m  == IF a % 2 = 0 THEN "r" ELSE "s"
+        up == (a + (IF path = "na" THEN 1 ELSE 0)) % 2 = 0
+    IN (cq # "no" \/ path = "na") /\ (cq = "meta" => (path = "na") = (a % 2 = 0)) /\
+       in = Coop(With(Row("coop", "one", Spell(f, up), "", AuthVariants(f)[2 * a - 1], AuthVariants(f)[2 * a],
+                          IF a % 2 = 0 THEN "dkim_first" ELSE "spf_first", m, m, p, spol, "absent", lk[1], lk[2]),
+                      cq = "body" /\ a % 3 = 0, "no"), cq, path)
+
 (* what the harness serves: TXT answers per name (queries are case-insensitive) *)
 ZoneOf(i) ==
   LET f == Canon(i.from) IN
@@ -347,7 +385,7 @@ ZoneOf(i) ==
         THEN <<[name |-> Canon(i.from2), ans |-> "record"]>> ELSE <<>>)
 
 -----------------------------------------------------------------------------
-Init == InAlign \/ InVerdict \/ InAction \/ InShape \/ InRealDkim
+Init == InAlign \/ InVerdict \/ InAction \/ InShape \/ InRealDkim \/ InCoop
 Next == FALSE /\ UNCHANGED in      \* one state per input (CHECK_DEADLOCK FALSE)
 Spec == Init /\ [][Next]_vars
 
